@@ -103,3 +103,21 @@ Proof.
   apply andb_true_iff in G as [G1 G2]. split; [exact G1|]. now apply PeanoNat.Nat.ltb_lt in G2.
 Qed.
 
+
+(** ** Recursive listings are made per request (Caco/FileSetSeq.v)
+
+    The Builder's env holds no listing (its fields are the frozen ones, nothing
+    but the workspace memo and the per-call hooks is written on it:
+    Caco/LoadSessionGen.v) and the selection loop of [newFileSet] has the frozen
+    text, which calls the plain function [listAllFiles]. *)
+From Verif Require Caco.LoadSessionGen Caco.FileSetSeq.
+
+Lemma gen_listings_per_call : forall x sb tree dirs c,
+  LoadSessionGen.env_writes_frozenb = true /\ LoadSessionGen.env_layout_frozenb = true /\
+  gen_src_select = model_src_select /\
+  FileSetSeq.listings_seq FileSetSeq.ListPerCall x sb tree c dirs = map (FileSet.list_all x sb tree) dirs.
+Proof.
+  intros. split; [exact LoadSessionGen.gen_env_writes_frozen|].
+  split; [exact LoadSessionGen.gen_env_layout_frozen|]. split; [exact gen_select_unchanged|].
+  apply FileSetSeq.listings_per_call.
+Qed.
